@@ -42,6 +42,7 @@ type Report struct {
 	Bounded     []map[string]any
 	StructFails []StructOb
 	verifDir    string
+	L           *Loaded
 }
 
 type Violation struct {
@@ -223,6 +224,7 @@ func cmdCheck(args []string) int {
 		rep.Errs = append(rep.Errs, "load: "+err.Error())
 		return finish(rep, *verif, db, t0)
 	}
+	rep.L = L
 	runDeductive(L, db, rep)
 	runBounded(L, rep, *verif)
 	if extra, ok := extraChecks[*prop]; ok {
@@ -383,6 +385,7 @@ func finish(rep *Report, verif string, db *ContractDB, t0 time.Time) int {
 	type failure struct {
 		name, detail, script string
 		model                bool
+		ob                   *Obligation
 	}
 	var fails []failure
 	anyGroups := map[string]string{} // cover-any name -> "sat" if some path is sat
@@ -426,7 +429,7 @@ func finish(rep *Report, verif string, db *ContractDB, t0 time.Time) int {
 			}
 			continue
 		}
-		fails = append(fails, failure{name: ob.Name, detail: fmt.Sprintf("kind=%s src=%s path=%s result=%s solver=%s\n%s", ob.Kind, ob.Src, ob.Path, ob.Result, ob.Solver, ob.Output), script: ob.Script, model: ob.Result == "sat"})
+		fails = append(fails, failure{name: ob.Name, detail: fmt.Sprintf("kind=%s src=%s path=%s result=%s solver=%s\n%s", ob.Kind, ob.Src, ob.Path, ob.Result, ob.Solver, ob.Output), script: ob.Script, model: ob.Result == "sat", ob: ob})
 	}
 	for name, r := range anyGroups {
 		if r != "sat" {
@@ -474,7 +477,14 @@ func finish(rep *Report, verif string, db *ContractDB, t0 time.Time) int {
 			body += "\nSMT query: " + sp + "\n"
 		}
 		replayed := false
-		if f.model {
+		if f.model && f.ob != nil && f.ob.Replay != nil && rep.L != nil {
+			if note, ok := replayScalar(rep.L, f.ob, replayDir); ok {
+				body += "\nreplay against the real code:\n" + note + "\n"
+				replayed = true
+			} else if note != "" {
+				body += "\nreplay attempt: " + note + "\n"
+			}
+		} else if f.model {
 			if note, ok := tryReplay(rep, f.name, f.detail, replayDir); ok {
 				body += "\nreplay against the real code:\n" + note + "\n"
 				replayed = true
